@@ -13,11 +13,14 @@
   scanned: `literal_verbatim` has no hypothesis about CR, LF, quotes, parentheses or braces in `s`.
 
   Proved: `literal_verbatim` (the leaf, all contents), `literal_admissible`, and non-interference
-  (`literal_noninterference_partial`) for every response covered by `RT.EncResponse` (FETCH with
-  ENVELOPE / address strings, RFC822, RFC822.HEADER, RFC822.TEXT, INTERNALDATE ...).  Missing: the
-  literal-capable positions of responses not yet in the relation (BODY[section], body-structure
-  strings, mailbox names, metadata and ID values); these are decided by the correspondence run.
+  (`literal_noninterference`) for every response covered by `RT.EncResponse`, i.e. every response
+  kind of the grammar and every literal-capable position in it (body sections, RFC822*, envelope
+  and address strings, body-structure strings, mailbox names, metadata values and entries, ID keys
+  and values, ACL identifiers, quota roots ...): wherever the relation uses `EncString`,
+  `EncNString` or `EncAString`, the literal form with arbitrary NUL-free content is admitted.
   The NUL exclusion is the code's (`is_char8`), and is itself a theorem: `literal_refuses_nul`.
+  The codec path (frames cut at the parser's length) is C04's theorem plus the look-alike family of
+  the correspondence run.
 -/
 import ImapVerif.Proofs.RTResp
 
@@ -43,7 +46,7 @@ theorem literal_admissible (s : Bytes) (z : Nat) (hs : ∀ c ∈ s, c ≠ 0) (hl
 /-- non-interference at response level: two responses that differ only in the content of literals
     are both parsed to their own value with their own continuation untouched; in particular the
     response ends where its encoding ends and what follows is left exactly as sent -/
-theorem literal_noninterference_partial (r : Response) (e : Bytes) (h : EncResponse r e) (rest : Bytes) :
+theorem literal_noninterference (r : Response) (e : Bytes) (h : EncResponse r e) (rest : Bytes) :
     parseResponse (e ++ rest) = .ok r rest := parseResponse_enc r e h rest
 
 /-- an explicit instance of the above: the RFC822 attribute with arbitrary content -/
